@@ -1,5 +1,75 @@
-(* Cases of kind (lit ...): the literal micro-evaluator run on a rendered literal text.
-   Stub until that model exists. *)
-From Jen Require Export Model.Exec.
+(* Cases of kind (lit ...): the literal micro-evaluator and the literal scanners of
+   GoStd/LitEval.v, GoStd/Quote.v run on texts (the texts jennifer renders for literals),
+   so that the harness can compare them with go/types, go/constant, go/scanner, strconv.
 
-Definition run_lit_case (ops : list sexp) : option (list str) := None.
+   A case line is   (lit) q1 q2 ...   and yields one observation per query:
+
+     (e x<hex of text>)    eval_lit on the text
+         -> (v bool 0|1)
+          | (v <integer type name> <value, decimal, with - sign>)
+          | (v float32|float64 <mantissa> <exp10>)          value = mantissa * 10^exp10
+          | (v complex64|complex128 <re mant> <re exp10> <im mant> <im exp10>)
+          | (bad)                                           rejected by the evaluator
+       integers and booleans are exact; mantissa and exp10 are decimal integers (not
+       normalised: 100.0 prints as 1000 -1)
+     (g x<hex of text>)    the formatter grammar of a finite float (%#v of float32/64)
+         -> (g 1 <0|1 canonical integer part> <mantissa> <exp10>) | (g 0)
+     (cg x<hex of text>)   the formatter grammar of a finite complex number
+         -> (cg 1 <re mant> <re exp10> <im mant> <im exp10>) | (cg 0)
+     (s x<hex of text>)    scan one Go string literal at the head of the text
+         -> (s x<hex of value> x<hex of remaining text>) | (bad)
+     (r x<hex of text>)    scan one Go rune literal at the head of the text
+         -> (r <code point, decimal> x<hex of remaining text>) | (bad)
+
+   A query of any other shape makes the whole case a (badcase). *)
+From Jen Require Export Model.Exec.
+From Jen Require Import Base.Num GoStd.Quote GoStd.LitEval.
+
+Definition s_bad : str := S "(bad)".
+
+Definition print_dec (q : dec) : list str := [Z_to_dec (fst q); Z_to_dec (snd q)].
+
+Definition print_value (tv : gotype * value) : str :=
+  let (ty, v) := tv in
+  paren (S "v" :: type_name ty ::
+         match v with
+         | VBool b => [bool_atom b]
+         | VInt z => [Z_to_dec z]
+         | VFloat q => print_dec q
+         | VComplex re im => print_dec re ++ print_dec im
+         end).
+
+Definition lit_query (q : sexp) : option str :=
+  match q with
+  | SList [Atom h; a] =>
+    match atom_str a with
+    | Some t =>
+      if str_eqb h (S "e") then
+        Some (match eval_lit t with Some tv => print_value tv | None => s_bad end)
+      else if str_eqb h (S "g") then
+        Some (match parse_ff t with
+              | Some f => paren ([S "g"; S "1"; bool_atom (ff_canon f)] ++ print_dec (ff_value f))
+              | None => paren [S "g"; S "0"]
+              end)
+      else if str_eqb h (S "cg") then
+        Some (match parse_cplx t with
+              | Some (fr, fi) => paren ([S "cg"; S "1"] ++ print_dec (ff_value fr) ++ print_dec (ff_value fi))
+              | None => paren [S "cg"; S "0"]
+              end)
+      else if str_eqb h (S "s") then
+        Some (match scan_string_lit t with
+              | Some (v, rest) => paren [S "s"; hex_of_str v; hex_of_str rest]
+              | None => s_bad
+              end)
+      else if str_eqb h (S "r") then
+        Some (match scan_rune_lit t with
+              | Some (r, rest) => paren [S "r"; N_to_dec r; hex_of_str rest]
+              | None => s_bad
+              end)
+      else None
+    | None => None
+    end
+  | _ => None
+  end.
+
+Definition run_lit_case (ops : list sexp) : option (list str) := all_some (map lit_query ops).
